@@ -58,8 +58,8 @@ def _calls(name, arglists):
 UNIVERSE = {
     "none": [],
     "bool": _calls("__call__", [[True], [False], [1], [0], [None], ["True"], [E], [NIL]]),
-    "int": _calls("__call__", [[0], [1], [-1], [2 ** 63], [True], [1.0], ["1"], [None], [E], [NIL]])
-    + _calls("min", [[0], [1], [2], [-1], [2 ** 70], [True], [0.5], ["0"], [None], [E]])
+    "int": _calls("__call__", [[0], [1], [-1], [2 ** 63], [10 ** 400], [True], [1.0], ["1"], [None], [E], [NIL]])
+    + _calls("min", [[0], [1], [2], [-1], [2 ** 70], [-(2 ** 1030)], [True], [0.5], ["0"], [None], [E]])
     + _calls("max", [[0], [1], [2], [-1], [-2 ** 70], [False], [0.5], ["0"], [None], [NIL]]),
     "float": _calls("__call__", [[0.5], [1.0], [-0.0], [float("inf")], [float("nan")], [1], [True],
                                  ["1.0"], [None], [E]])
@@ -70,7 +70,8 @@ UNIVERSE = {
     + _calls("len", LEN1 + LEN2)
     + _calls("alphabet", [["ab"], ["a"], [""], ["abc "], [1], [None], [["a", "b"]], [b"ab"]])
     + _calls("contains", [["a"], ["ab"], ["c"], [""], [1], [None], [b"a"], [E]])
-    + _calls("regex", [["a"], ["^ab$"], ["c+"], [""], ["("], ["[a"], [1], [None], [b"a"], [E]]),
+    + _calls("regex", [["a"], ["^ab$"], ["c+"], [""], ["("], ["[a"], [1], [None], [b"a"], [E],
+                       [Zoo("re_compiled_icase")], ["x{2}"]]),
     "list": _calls("__call__", [[[]], [[SP_INT1]], [[SP_INT1, SP_STR]], [[SP_INT, E]], [[E, SP_INT]],
                                 [[E, SP_INT, E]], [[E]], [[E, E]], [[SP_INT, E, SP_INT]],
                                 [[E, E, E]], [SP_INT], [SP_ANY], [[1]], [[None]], [(SP_INT,)],
@@ -145,6 +146,13 @@ def _arg(a):
     return a
 
 
+def _r(x):
+    try:
+        return repr(x)
+    except Exception as e:  # noqa  (printing is C06's business; the chain goes on)
+        return f"<unprintable {type(x).__name__}: {type(e).__name__}>"
+
+
 def _fixed_list_value(s):
     """list schema with only fixed-value elements and no `...` -> the list of those values"""
     from niltype import Nil
@@ -170,7 +178,7 @@ def check(case, ctx):
     n_ok = 0
     for call in case["calls"]:
         name, args = call[0], [_arg(a) for a in call[1:]]
-        before_c, before_r = canon.canon(s), repr(s)
+        before_c, before_r = canon.canon(s), _r(s)
         fam = FAMILY[name]
         try:
             out = getattr(s, name)(*args)
@@ -179,7 +187,7 @@ def check(case, ctx):
         except Exception as e:  # noqa
             raise Violation(f"wrong-exception:{type(e).__name__}",
                             f"{before_r}.{name}{tuple(args)!r} raised {e!r} (not DeclarationError)")
-        if canon.canon(s) != before_c or repr(s) != before_r:
+        if canon.canon(s) != before_c or _r(s) != before_r:
             raise Violation("receiver-changed", f"{before_r}.{name}{tuple(args)!r} changed its receiver "
                                                 f"to {s!r}")
         if out is None:
@@ -200,17 +208,17 @@ def check(case, ctx):
             try:
                 res = validate(s, v)
             except Exception as e:  # noqa
-                raise Violation("validate-raises", f"validate({s!r}, its own value) raised {e!r}")
+                raise Violation("validate-raises", f"validate({_r(s)}, its own value) raised {e!r}")
             if res.has_errors():
                 raise Violation("fixed-value-rejected",
-                                f"{s!r} carries value {v!r} which it rejects: {res.get_errors()!r}")
+                                f"{_r(s)} carries value {v!r} which it rejects: {res.get_errors()!r}")
         if case["type"] == "list":
             lv = _fixed_list_value(s)
             if lv is not None:
                 res = validate(s, lv)
                 if res.has_errors():
                     raise Violation("fixed-elements-rejected",
-                                    f"{s!r}: its own element values {lv!r} -> {res.get_errors()!r}")
+                                    f"{_r(s)}: its own element values {lv!r} -> {res.get_errors()!r}")
     ctx.label("type:" + case["type"], "len:%d" % len(case["calls"]))
     if len(case["calls"]) >= 2 and n_ok >= 1:
         ctx.mark_nontrivial(case, sample_class=(case["type"], len(case["calls"]), n_ok))
